@@ -12,10 +12,10 @@ CONSTANTS
   Protos = {1, 4}
   Secs = {2, 20}
   MaxChunks = 1
-  P1MaxChunks = 11
+  P1MaxChunks = 21
   MaxFiles = 1
   MaxPauses = 0
-  StartSizes = {1024, 4096, 1048576, 10485760, 1073741824}
+  StartSizes = {}
   Variant = "coded"
 INVARIANTS Export NeverRejectedByReceiver
 CHECK_DEADLOCK FALSE
